@@ -56,14 +56,14 @@ type evGen struct {
 	ctl     bool
 	shadow  bool
 	inFn    bool // inside a lambda / defun body
-	inDefun bool // inside a defun body (no direct lambda call there: C01 finding dlambda.in-defun)
+	inDefun bool // inside a defun body
+	noBare  bool // variables are referenced as (vtr v), never as a bare symbol (C01 finding dlambda.in-*)
 	held    [evNMutex]bool
 	trn     int
 	iter    int // product of the iteration bounds of the enclosing loops
 	size    int // budget of remaining nodes
 	avoid   func(cell, exit string) bool
 	hist    map[string]int
-	gvarsN  int
 	globals []gvar
 }
 
@@ -165,6 +165,13 @@ func (g *evGen) pickVar(typ int, assignable bool) (gvar, bool) {
 	return cand[g.r.Intn(len(cand))], true
 }
 
+func (g *evGen) pickGlobal() (gvar, bool) {
+	if len(g.globals) == 0 {
+		return gvar{}, false
+	}
+	return g.globals[g.r.Intn(len(g.globals))], true
+}
+
 func (g *evGen) pickFnVar(arity int) (gvar, bool) {
 	var cand []gvar
 	seen := map[string]bool{}
@@ -206,11 +213,17 @@ func (g *evGen) leaf(t int) string {
 	switch t {
 	case tI:
 		if v, ok := g.pickVar(tI, false); ok && g.r.Chance(60) {
+			if g.noBare {
+				return "(vtr " + v.name + ")"
+			}
 			return v.name
 		}
 		return g.lit()
 	case tL:
 		if v, ok := g.pickVar(tL, false); ok && g.r.Chance(60) {
+			if g.noBare {
+				return "(vtr " + v.name + ")"
+			}
 			return v.name
 		}
 		switch g.r.Intn(3) {
@@ -270,14 +283,9 @@ func (g *evGen) stmt(d int) string {
 		}
 		return g.expr(tI, d)
 	case 9:
-		// a fresh global created by setq
-		if !g.shadow && !g.inFn && g.gvarsN < 3 {
-			g.gvarsN++
-			name := g.fresh("g")
-			e := g.sub("setq.value", func() string { return g.expr(tI, d-1) })
-			g.globals = append(g.globals, gvar{name: name, typ: tI})
+		if v, ok := g.pickGlobal(); ok {
 			g.count("setq-global")
-			return fmt.Sprintf("(setq %s %s)", name, e)
+			return fmt.Sprintf("(setq %s %s)", v.name, g.sub("setq.value", func() string { return g.expr(tI, d-1) }))
 		}
 		return g.expr(tI, d)
 	}
@@ -324,7 +332,7 @@ func (g *evGen) intExpr(d int) string {
 		for i := g.r.Intn(3); i > 0; i-- {
 			rest = append(rest, g.sub("prog1.body", func() string { return g.stmt(d - 1) }))
 		}
-		return strings.TrimSpace("(prog1 " + first + " " + strings.Join(rest, " ")) + ")"
+		return strings.TrimSpace("(prog1 "+first+" "+strings.Join(rest, " ")) + ")"
 	case 9, 10, 11:
 		return g.letExpr(tI, d)
 	case 12:
@@ -386,13 +394,22 @@ func (g *evGen) intExpr(d int) string {
 			g.sub("apply.arg", func() string { return g.expr(tL, d-1) }))
 	case 28:
 		// direct lambda call
-		if g.shadow || (g.inDefun && g.avoid("dlambda.in-defun", "c01")) {
+		if g.shadow {
 			return g.letExpr(tI, d)
 		}
 		g.count("lambda-call")
 		p := g.fresh("p")
 		arg := g.sub("dlambda.arg", func() string { return g.expr(tI, d-1) })
+		savedNB := g.noBare
+		if g.inFn && (g.avoid("dlambda.in-defun", "c01") || g.avoid("dlambda.in-lambda", "c01")) {
+			// inside a function body the direct call is compiled eagerly in an empty scope and a bare
+			// free variable as a body form becomes an unbound global (C01 findings): avoid bare symbols
+			g.noBare = true
+		}
+		savedIn, savedHeld := g.inFn, g.held
+		g.inFn = true // the body of a direct call is a function body too
 		body := g.withVars([]gvar{{name: p, typ: tI}}, func() string { return g.seq("dlambda", tI, d, 1) })
+		g.noBare, g.inFn, g.held = savedNB, savedIn, savedHeld
 		return fmt.Sprintf("((lambda (%s) %s) %s)", p, body, arg)
 	}
 	return g.leaf(tI)
@@ -1021,10 +1038,18 @@ func evGenProgram(r *lib.Rng, caseID int, ctl bool, avoid func(cell, exit string
 	g.shadow = r.Chance(30)
 	g.size = 25 + r.Intn(60)
 	var parts []string
+	if !g.shadow {
+		// global variables: created by a top-level setq before anything else runs (names never let-bound)
+		for i := r.Intn(3); i > 0; i-- {
+			name := g.fresh("g")
+			parts = append(parts, fmt.Sprintf("(setq %s %s)", name, g.lit()))
+			g.globals = append(g.globals, gvar{name: name, typ: tI})
+		}
+	}
 	for i := r.Intn(3); i > 0; i-- {
 		parts = append(parts, g.defun(r.Chance(35)))
 	}
-	d := 3 + r.Intn(4) // nesting depth up to 6
+	d := 2 + r.Intn(4) // generator nesting depth 2..5 (plus the defun level)
 	t := []int{tI, tI, tL, tB}[r.Intn(4)]
 	if g.shadow {
 		hist["mode-shadow"]++
